@@ -280,8 +280,16 @@ func (e *Executor) relayOp(op MidOp, res *OffRes) {
 		hdr := pc.SessionHeader{ApplicationPubKey: PubHex(s.App), Chain: s.Chain, SessionBlockHeight: s.SBH}
 		b, _ := json.Marshal(n.evidenceView(hdr))
 		res.Value = string(b)
+	case "sleep":
+		// plain wall-clock pause with the node reported as catching up: lets the per-block goroutines of earlier blocks
+		// wake up and leave before an "autotx" window opens
+		n.SetSynced(false)
+		time.Sleep(time.Duration(op.Height) * time.Millisecond)
 	case "autotx":
-		// wait (wall clock, bounded) for the node's own automatic claim / proof transactions and report them
+		// wait (wall clock, bounded) for the node's own automatic claim / proof transactions and report them; during this
+		// window the module's per-block goroutine is told the node is caught up
+		atomic.StoreInt32(&n.TM.autoSend, 1)
+		defer atomic.StoreInt32(&n.TM.autoSend, 0)
 		wait := time.Duration(op.Height) * time.Millisecond
 		deadline := time.Now().Add(wait)
 		var got [][]byte
